@@ -887,6 +887,58 @@ def run(ctx):
     betweenness_checks(ctx, dcases, quick)
     ccn_checks(ctx, quick)
     frame_checks(ctx, nets)
+    hub_checks(ctx, quick)
+
+
+def hub_checks(ctx, quick):
+    """large cross degrees: the library's degree dtype is int16, so a normalisation k(k-1)/2 or a
+    triple count evaluated in that type wraps from k = 182 on (182*181 > 32767).  One network
+    with hubs of cross degree 181, 182, 200 and 240 (and ordinary nodes): clustering, degree and
+    density methods against numpy evaluations of their definitions on the sub-blocks, and dense
+    vs `_sparse`."""
+    from pyunicorn.core import InteractingNetworks
+    rng = ctx.rng
+    n1, n2 = 6, (250 if quick else 300)
+    N = n1 + n2
+    A = np.zeros((N, N), dtype=np.int8)
+    degs = [181, 182, 200, 240, 5, 0]
+    for i, k in enumerate(degs):
+        nb = rng.sample(range(n1, N), k)
+        for j in nb:
+            A[i, j] = A[j, i] = 1
+    for _ in range(3 * n2):                      # links inside the second group
+        a, b = rng.sample(range(n1, N), 2)
+        A[a, b] = A[b, a] = 1
+    net = InteractingNetworks(adjacency=A, silence_level=3)
+    L1, L2 = list(range(n1)), list(range(n1, N))
+    B = A[np.ix_(L1, L2)].astype(np.int64)       # cross block
+    A2 = A[np.ix_(L2, L2)].astype(np.int64)
+    k = B.sum(axis=1)
+    tri = np.array([(B[i][:, None] * B[i][None, :] * A2).sum() / 2 for i in range(n1)])
+    with np.errstate(divide="ignore", invalid="ignore"):
+        clc = np.where(k > 1, tri / (k * (k - 1) / 2.0), 0.0)
+    exp = {"cross_degree": k.astype(float), "cross_local_clustering": clc,
+           "cross_local_clustering_sparse": clc, "cross_global_clustering": clc.mean(),
+           "cross_global_clustering_sparse": clc.mean(),
+           "cross_transitivity": tri.sum() / (k * (k - 1) / 2.0).sum(),
+           "cross_transitivity_sparse": tri.sum() / (k * (k - 1) / 2.0).sum(),
+           "cross_link_density": B.sum() / float(n1 * n2)}
+    ctx.case(("hubs", N, tuple(degs)), True)
+    for nm, e in exp.items():
+        try:
+            got = np.asarray(getattr(net, nm)(L1, L2), dtype=float)
+        except Exception as ex:  # noqa
+            ctx.fail({"kind": "hub-raises", "method": nm, "error": type(ex).__name__},
+                     f"{nm} raises {type(ex).__name__} on a network with cross degrees up to 240",
+                     {"N1": n1, "N2": n2, "cross_degrees": degs})
+            continue
+        ctx.count("hub:methods-compared")
+        if got.shape != np.asarray(e).shape or not np.allclose(got, e, rtol=1e-6, atol=1e-9):
+            ctx.fail({"kind": "hub-definition", "method": nm},
+                     f"{nm} differs from its definition on the sub-blocks for cross degrees "
+                     f"{degs}: {np.round(got, 4).tolist()} vs {np.round(e, 4).tolist()}",
+                     {"N1": n1, "N2": n2, "cross_degrees": degs, "method": nm,
+                      "adjacency_rows_of_group_1": [np.nonzero(A[i])[0].tolist() for i in L1]})
 
 
 def sig(method, relation, c, extra=None):
